@@ -651,6 +651,37 @@ def run_c18(tier):
             if py_text != cpp_text:
                 chk.property_violation(casej, {'what': 'str() of the default Python message and print() of the default C++ message differ', 'python': py_text,
                                                'cpp': cpp_text, 'zero_filled_enum_array': zero_filled_enum_array(c.tree)}, classify_c18)
+        # what a field holds prints like the plain value, whatever subclass the assigned object was (D197: bytes; D162 / D183: numbers)
+        import enum
+        import prophy
+
+        class Tag(bytes):
+            def __repr__(self):
+                return 'np.bytes_(%s)' % bytes.__repr__(self)
+
+        class Colour(enum.IntEnum):
+            red = 2
+        sb = prophy.with_metaclass(prophy.struct_generator, prophy.struct)
+        B = type(sb)('B18', (sb,), {'_descriptor': [('a', prophy.u8), ('n', prophy.u32), ('w', prophy.array(prophy.u16, bound='n')), ('fix', prophy.bytes(size=3)),
+                                                    ('lim', prophy.bytes(size=4, bound='m')), ('m', prophy.u32), ('k', prophy.u32),
+                                                    ('dyn', prophy.bytes(bound='k')), ('g', prophy.bytes())][:4] +
+                                    [('m', prophy.u32), ('lim', prophy.bytes(size=4, bound='m')), ('k', prophy.u32), ('dyn', prophy.bytes(bound='k')), ('g', prophy.bytes())]})
+        for values in ((b'ab', b'cd', b'ef\n', b'xyz'), (b'', b'', b'', b''), (b"q'\\", b'\x00\xff', b'\t', b'"')):
+            plain, odd = B(), B()
+            for msg, wrap, number in ((plain, bytes, int), (odd, Tag, Colour)):
+                msg.a = number(2)
+                msg.w[:] = [number(2), 7]
+                msg.fix, msg.lim, msg.dyn, msg.g = [wrap(x) for x in values]
+            if plain.encode('<') != odd.encode('<'):
+                chk.property_violation({'assigned': repr(values)}, {'what': 'subclass instances encode differently from the plain values'})
+            casej = {'schema': 'hand-written B{u8 a; u32 n; u16 w<@n>; bytes fix[3]; u32 m; bytes lim<4 @m>; u32 k; bytes dyn<@k>; bytes g<...>}',
+                     'assigned': 'IntEnum members and instances of a bytes subclass with its own repr: %r' % (values,)}
+            chk.count(('subclass-values', values), True)
+            chk.bump('directed:subclass values')
+            if str(odd) != str(plain):
+                # the two messages have one encoding: C++ prints one text for both (compared with str() of plain values above)
+                chk.property_violation(casej, {'what': 'str() of the message differs from str() of the message holding the same plain values (and so from what C++ prints)',
+                                               'python': str(odd), 'plain': str(plain)})
     finally:
         corpus.close()
     return chk.finish()
